@@ -1,9 +1,14 @@
 """C09 — Tiling images on a common TAN grid equals tiling the assembled mosaic."""
 PROPERTY = "C09"
 LEVEL = "other"
-CONTRACT_MODULES = ["contracts.specfuns", "contracts.lemmas_desc", "contracts.pyramid", "contracts.image", "contracts.merge",
-                    "contracts.pyramidio", "contracts.study", "contracts.parallel", "contracts.multitan"]
-FUNCTIONS = ["toasty.multi_tan.MultiTanProcessor._tile_serial", "toasty.multi_tan._mp_tile_worker"]
+CONTRACT_MODULES = ["contracts.specfuns", "contracts.lemmas_desc", "contracts.pyramid", "contracts.parallel", "contracts.walk", "contracts.reducer", "contracts.lemmas_embed", "contracts.generator", "contracts.image", "contracts.merge", "contracts.pyramidio", "contracts.study", "contracts.multitan", "contracts.multiwcs", "contracts.toastsample", "contracts.toastgeom", "contracts.toastgen"]
+FUNCTIONS = [
+    "toasty.multi_tan.MultiTanProcessor._tile_serial",
+    "toasty.multi_tan._mp_tile_worker",
+    "toasty.multi_tan.MultiTanProcessor._tile_parallel",
+    "toasty.pyramid.PyramidIO.update_image",
+    "toasty.image.Image.update_into_maskable_buffer",
+]
 LEMMAS = []
 SLOW = ()
 TRUSTED_BASE = ["pyvc VC generator; z3/cvc5", "numpy contracts (pyvc/ndarray.py)",
